@@ -24,6 +24,15 @@ func main() {
 		engine.DebugMiss(*repo, strings.TrimPrefix(*debug, "miss:"))
 		return
 	}
+	if *debug == "baseline" {
+		p, err := engine.Load(engine.Config{Repo: *repo})
+		if err != nil {
+			fmt.Fprintln(os.Stderr, err)
+			os.Exit(2)
+		}
+		os.Stdout.Write(engine.BaselineOf(p))
+		return
+	}
 	if *debug == "items" {
 		engine.DebugItems(*repo)
 		return
